@@ -270,7 +270,7 @@ func genSections(nU, dev int, yield func(m *wire.Msg)) {
 // 16384 pointer limit), followed by records that could point at it and at earlier names.
 func genOffsets(lo, hi int, yield func(m *wire.Msg, nameAt int)) {
 	for at := lo; at <= hi; at++ {
-		for variant := 0; variant < 3; variant++ {
+		for variant := 0; variant < 5; variant++ {
 			m := &wire.Msg{ID: 3, Flags: 0x8400}
 			m.Q = []wire.Question{{Name: msgNames[1], Type: 16, Class: 1}}
 			// header 12 + question (len(name)+4); filler: owner root(1)+10 hdr + rdata
@@ -278,7 +278,7 @@ func genOffsets(lo, hi int, yield func(m *wire.Msg, nameAt int)) {
 			fillerHdr := 1 + 10
 			rd := at - 12 - qlen - fillerHdr
 			var filler wire.RR
-			if variant == 0 {
+			if variant == 0 || variant == 4 {
 				filler = wire.RR{Name: nil, Type: 10, Class: 1, TTL: 1, Vals: []wire.Val{{B: bytes.Repeat([]byte{'f'}, rd)}}}
 			} else {
 				// TXT: chunks of 255+1
@@ -300,6 +300,20 @@ func genOffsets(lo, hi int, yield func(m *wire.Msg, nameAt int)) {
 				mkRR(5, enum.L("w", "late", "zone"), msgNames[1])}
 			if variant == 2 {
 				m.Sec[1] = []wire.RR{mkRR(6, enum.L("zone"), enum.L("ns", "late", "zone"), enum.L("h", "ns", "late", "zone"))}
+			}
+			if variant >= 3 {
+				// the late names carry octets that need escapes in their text *behind* their first labels (a dot inside a
+				// label, a NUL, a backslash): text offsets and wire offsets of the label starts differ around the limit, and
+				// the records behind own names that are suffixes of the first one
+				esc := [][]byte{[]byte("z.z"), {0, 'q', '\\'}}
+				if variant == 4 {
+					esc = [][]byte{{'\\', '\\', '.'}, []byte("end")}
+				}
+				n1 := append([][]byte{[]byte("x"), []byte("yy")}, esc...)
+				m.Sec[0] = []wire.RR{filler,
+					mkRR(2, n1, append([][]byte{[]byte("ns")}, n1[1:]...)),
+					mkRR(15, n1[1:], append([][]byte{[]byte("mx")}, n1[2:]...)),
+					mkRR(5, append([][]byte{[]byte("w")}, n1[2:]...), n1)}
 			}
 			yield(m, at)
 		}
